@@ -2,6 +2,6 @@ SPECIFICATION Spec
 CONSTANTS
   OffsMod = 65536
   Alphabet <- Bytes4
-  MaxLen = 8
+  MaxLen = 9
 INVARIANTS EmitIP4Prefix EmitContainsIP4 ContainsDeclInv PrefixDeclInv PrefixDeclRejectedInv
 CHECK_DEADLOCK FALSE
